@@ -97,6 +97,22 @@ func (g *Gen) instr(in ssa.Instruction, st *State) *State {
 	case *ssa.UnOp:
 		return g.unop(x, st)
 	case *ssa.Convert:
+		if _, toSlice := types.Unalias(x.Type()).Underlying().(*types.Slice); toSlice {
+			if fb, ok := types.Unalias(x.X.Type()).Underlying().(*types.Basic); ok && fb.Info()&types.IsString != 0 {
+				// []byte(str): fresh backing array holding the string's bytes
+				var r Term
+				r, st = g.allocRef(st)
+				sv := g.val(x.X)
+				et := types.Unalias(x.Type()).Underlying().(*types.Slice).Elem()
+				k := g.u.ElemComp(et)
+				if g.u.SortOf(et) != "Int" {
+					g.fail("NEEDS-MODEL []rune(string) conversion at %s", g.pos(x))
+				}
+				st = g.update(st, k, fmt.Sprintf("(store %s %s (str.bytes %s))", g.read(st, k), r, sv))
+				g.define(x, fmt.Sprintf("(mk.slice %s 0 (slen %s) (slen %s))", r, sv, sv))
+				return st
+			}
+		}
 		g.define(x, g.convert(x))
 	case *ssa.ChangeType:
 		g.vals[x] = g.val(x.X)
@@ -261,6 +277,11 @@ func (g *Gen) binop(x *ssa.BinOp, st *State) Term {
 		return fmt.Sprintf("(- %s (* %s %s))", a, b, q)
 	case token.EQL, token.NEQ:
 		eq := g.equal(x.X.Type(), a, b, st)
+		if _, isIface := xt.(*types.Interface); isIface && (isGlobalLoad(x.X) || isGlobalLoad(x.Y)) {
+			// comparison with a package-level sentinel (errors.New value, a
+			// pointer): Go's interface equality is identity of (type, pointer)
+			eq = fmt.Sprintf("(= %s %s)", a, b)
+		}
 		if x.Op == token.NEQ {
 			return "(not " + eq + ")"
 		}
@@ -458,12 +479,12 @@ func (g *Gen) convert(x *ssa.Convert) Term {
 		if t.Info()&types.IsString != 0 {
 			if _, ok := from.(*types.Slice); ok {
 				// string(bytes): length and content
-				r := g.fresh("str", "Str")
+				r := g.fresh("sconv", "Str")
 				g.assert(fmt.Sprintf("(= (slen %s) (s.len %s))", r, v))
 				g.strFrom[r] = v
 				return r
 			}
-			return g.fresh("str", "Str")
+			return g.fresh("sconv", "Str")
 		}
 		if t.Info()&types.IsFloat != 0 {
 			return g.fresh("float", "Float")
@@ -629,10 +650,18 @@ func (g *Gen) slice(x *ssa.Slice, st *State) *State {
 		base, off, ln, cp = fmt.Sprintf("(s.base %s)", s), fmt.Sprintf("(s.off %s)", s), fmt.Sprintf("(s.len %s)", s), fmt.Sprintf("(s.cap %s)", s)
 	case *types.Pointer:
 		at := types.Unalias(t.Elem()).Underlying().(*types.Array)
-		if g.places[x.X] != nil {
-			g.fail("slicing an interior array (%s) not supported", x.X.Name())
+		if pl := g.places[x.X]; pl != nil {
+			// array stored by value inside a row element: the slice is modelled
+			// as a read-only copy (abstraction, reported)
+			var r Term
+			r, st = g.allocRef(st)
+			k := g.u.ElemComp(at.Elem())
+			st = g.update(st, k, fmt.Sprintf("(store %s %s %s)", g.read(st, k), r, g.load(st, pl)))
+			g.abstractedOnce("interior-array-slice: a slice of an array stored by value inside a slice element is modelled as a read-only copy")
+			base, off, ln, cp = r, "0", fmt.Sprint(at.Len()), fmt.Sprint(at.Len())
+		} else {
+			base, off, ln, cp = g.val(x.X), "0", fmt.Sprint(at.Len()), fmt.Sprint(at.Len())
 		}
-		base, off, ln, cp = g.val(x.X), "0", fmt.Sprint(at.Len()), fmt.Sprint(at.Len())
 	case *types.Basic:
 		str = true
 	default:
@@ -703,9 +732,29 @@ func (g *Gen) ret(x *ssa.Return, st *State) {
 			env.vars["result"] = tv
 		}
 	}
+	if n := len(x.Results); n > 0 {
+		if _, bound := env.vars["err"]; !bound && isErrorType(x.Results[n-1].Type()) {
+			v := x.Results[n-1]
+			env.vars["err"] = TV{g.val(v), g.u.SortOf(v.Type()), v.Type()}
+		}
+	}
 	for _, e := range g.con.Ensures {
 		goal := g.evalBool(env, e.Expr, e.Src)
 		g.deferObl("post", e.Label, r, goal, e.Src)
 	}
 	g.retReach = append(g.retReach, r)
+}
+
+func isErrorType(t types.Type) bool {
+	n, ok := types.Unalias(t).(*types.Named)
+	return ok && n.Obj().Pkg() == nil && n.Obj().Name() == "error"
+}
+
+func isGlobalLoad(v ssa.Value) bool {
+	u, ok := v.(*ssa.UnOp)
+	if !ok || u.Op != token.MUL {
+		return false
+	}
+	_, ok = u.X.(*ssa.Global)
+	return ok
 }
